@@ -9,6 +9,9 @@ CLAIMED = {
     'C06': ('4 C06', 'TLC model checking of spec/Table.tla (MC_Inc) + replay of every TLC-enumerated (table, condition) into dictable.inc/exc/find_ (S2C) + TLC validation of recorded calls against Trace_Inc (C2S)',
             'Exhaustive within small scope on the specification (mechanism = law, partition, idempotence), every enumerated case replayed into the real code with plain equality, random larger tables validated by TLC against the same operators.',
             'Trusted: TLC, the tag/untag abstraction in harness/enc.py, regexes specified extensionally on a fixed string universe.'),
+    'C07': ('4 C07', 'TLC model checking of the documented comparison mechanism against the preorder axioms (MC_Order) + TLC-enumerated lists/tables replayed into sort / dictable.sort + the full cmp matrix and random sorts recorded from the code, validated by the TLA+ trace specification Trace_Order (axioms over all pairs and triples of the observed matrix)',
+            'Axioms (total, antisymmetric, transitive, pinned entries) checked by TLC on every pair/triple of a ~95-value concrete universe as observed from the real cmp; sorting results judged by TLC against the real cmp (permutation, non-decreasing, lexicographic by key columns, stable, idempotent, explicit value orders recomputed exactly).',
+            'Trusted: TLC, harness/enc.py. The order of strings is given extensionally on a fixed universe; cross-type ranking is deliberately not pinned.'),
 }
 PENDING_REASON = 'check not built yet in this round (planned, see DESIGN.md section 4); not claimed until its specification and conformance harness exist'
 
